@@ -183,7 +183,11 @@ def lean_build(prop, thorough=False):
     thms = theorem_names(prop, excluded)
     out["theorems"] = thms
     if rc != 0:
-        out["failing"] = re.findall(r"error: (\S+\.lean:\d+:\d+)", log)[:10] or ["lake build"]
+        out["failing"] = re.findall(r"error: (\S+\.lean:\d+:\d+)", log)[:10]
+        if not out["failing"]:
+            # lake failed without naming a position in a Lean source (killed, out of memory, lock, missing
+            # toolchain ...): nothing was learnt about the theorems -> exit 2, never a VIOLATION line (DESIGN 2.2)
+            raise Infra("lake build of the property modules failed without a Lean error:\n" + log[-2000:])
         out["build_s"] = time.time() - t0
         return out
     hits = forbidden_hits()
@@ -206,6 +210,8 @@ def lean_build(prop, thorough=False):
         results = list(ex.map(audit_one, files))
     for rc, log in results:
         if rc != 0:
+            if not re.search(r"\.lean:\d+:\d+", log):
+                raise Infra("axiom audit could not run (no Lean error reported):\n" + log[-2000:])
             out["failing"] = ["audit: " + log[-2000:]]
             return out
         for m in re.finditer(
@@ -308,7 +314,9 @@ class Result:
             self.samples.append(case)
 
     def violation(self, what, case, expected=None, observed=None, finding=None):
-        if len(self.concrete) < 50:
+        # the cap of 50 is per attribution: violations attributed to a recorded finding must not use up the room of
+        # the others (a NEW violation recorded after 50 known ones would be dropped and the run would exit 0)
+        if sum(1 for v in self.concrete if v.get("finding") == finding) < 50:
             self.concrete.append(
                 {"what": what, "input": case, "expected": expected, "observed": observed,
                  "finding": finding}
@@ -411,6 +419,12 @@ def main(argv):
         mod = importlib.import_module(f"harness.checks.{prop.lower()}")
         if args.replay:
             data = json.loads(Path(args.replay).read_text())
+        if args.replay and data.get("kind") == "no-failing-input-found":
+            # no input to replay: what failed was a proof obligation or the correspondence -> run the check again
+            print(f"replay of a 'no-failing-input-found' record ({data.get('broken_theorems_or_build')}): "
+                  "running the whole check again")
+            args.replay = None
+        if args.replay:
             ctx = Ctx(prop, tier, seed)
             ok, msg = mod.replay(ctx, data)
             print(msg)
